@@ -5,10 +5,14 @@ lib/plot/timeseries.go (`timeSeries.add`, `timeSeries.iter`).
 * Time stamps are integers: nanoseconds since the Unix epoch (no monotonic reading: results
   decoded from files carry none).  `Time.Sub` saturates at the `Duration` range.
 * The compressed store (github.com/tsenart/go-tsz) is a *parameter* `store` of `Plot.data`:
-  the function from the pushed `(ms, value)` pairs of a series to the pairs its iterator hands
-  back.  It is *assumed lossless inside its documented limits* (`Lossless`, `tszDomain`: the
-  first non-zero time stamp of a series is below 2^27−1 ms, later gaps are below 2^32 ms);
-  nothing is assumed outside them.  The driver instantiates `store := id`.
+  the function from the `(time stamp, value)` pairs pushed into a `tsz.Series` to the pairs its
+  iterator hands back.  `timeSeries.add` creates the series at its first point (`tsz.New(t+1)`)
+  and pushes `t+1` (go-tsz reads a time stamp 0 as "no point yet"); `timeSeries.iter` subtracts
+  the 1 again; a series without points has no store and iterates over nothing.  The store is
+  *assumed lossless inside its limits* (`Lossless`, `tszDomain`: stored time stamps are
+  positive, do not decrease, and consecutive ones are less than 2^31 ms apart — go-tsz keeps the
+  delta between consecutive time stamps as a `uint32` and the delta of deltas in at most 32
+  bits); nothing is assumed outside them.  The driver instantiates `store := id`.
 * `uint64` sequence numbers are unbounded `Nat` (`ls.seq++` is not wrapped at 2^64).
 * The label of a result is the output of the `Labeler` (for `ErrorLabeler`: "OK"/"ERROR").
 -/
@@ -191,26 +195,45 @@ def allSeries (p : Plot) : List TimeSeries :=
 /-- The compressed store: pushed pairs ↦ pairs read back by the iterator. -/
 abbrev Store := List (Nat × F64) → List (Nat × F64)
 
+/-- consecutive time stamps do not decrease and are less than `bound` apart -/
 def gapsBelow (bound : Nat) : Nat → List Nat → Bool
   | _, [] => true
-  | t, t' :: rest => decide (t' - t < bound) && gapsBelow bound t' rest
+  | t, t' :: rest => decide (t ≤ t') && decide (t' - t < bound) && gapsBelow bound t' rest
 
-/-- The limits of go-tsz (`tsz.New(0)`, `Series.Push`): while the series' time stamps are 0
-each point is written in full; the first non-zero time stamp is written as a 27-bit delta to
-0 (and 2^27−1 is read back as the end-of-stream marker); every later delta is a `uint32`. -/
-def tszDomain (ts : List Nat) : Bool :=
-  match ts.dropWhile (· == 0) with
+/-- The limits of go-tsz as `timeSeries` uses it (`tsz.New(first)`, `Series.Push`), on the
+*stored* time stamps: positive (0 is go-tsz's "no point yet" sentinel), non-decreasing, and
+consecutive ones less than 2^31 apart (`tDelta := uint32(t - s.t)`, `d := int32(tDelta - s.tDelta)`,
+`dod` written in at most 32 bits).  The first stored time stamp equals the series' `T0`, so its
+27-bit delta is 0.  (Reading the code and experiment both indicate that gaps up to 2^32−1 are
+still exact; the assumption is stated for the smaller domain.) -/
+def tszDomain (stored : List Nat) : Bool :=
+  match stored with
   | [] => true
-  | t :: rest => decide (t < 2 ^ 27 - 1) && gapsBelow (2 ^ 32) t rest
+  | t :: rest => decide (0 < t) && gapsBelow (2 ^ 31) t rest
 
 /-- **Assumption** on the third-party store: inside `tszDomain` the iterator returns exactly
 the pushed pairs. -/
 def Lossless (store : Store) : Prop :=
   ∀ pts : List (Nat × F64), tszDomain (pts.map (·.1)) = true → store pts = pts
 
-/-- the points handed out by `timeSeries.iter` -/
+/-- the same limit on the plotted millisecond values of a series (before the shift by one):
+consecutive points of a series are less than 2^31 ms (24.8 days) apart -/
+def msDomain (ms : List Nat) : Bool :=
+  match ms with
+  | [] => true
+  | t :: rest => gapsBelow (2 ^ 31) t rest
+
+/-- `ts.data.Push(t+1, v)`.  (`t + 1` cannot wrap: `t ≤ (2^64−1)/10^6`.) -/
+def shiftUp (p : Nat × F64) : Nat × F64 := (p.1 + 1, p.2)
+
+/-- `t - 1` on `uint64` -/
+def unshift (t : Nat) : Nat := if t = 0 then 18446744073709551615 else t - 1
+
+/-- the points handed out by `timeSeries.iter`: nothing when no point was added (`data == nil`),
+otherwise the stored pairs with `X = time.Duration((t-1) * 1e6).Seconds()` -/
 def seriesPoints (store : Store) (s : TimeSeries) : List Point :=
-  (store s.pts).map (fun (t, v) => ⟨msToSeconds t, v⟩)
+  if s.pts.isEmpty then []
+  else (store (s.pts.map shiftUp)).map (fun (t, v) => ⟨msToSeconds (unshift t), v⟩)
 
 /-- `math.NaN()` -/
 def goNaN : F64 := ⟨0x7FF8000000000001⟩
